@@ -103,4 +103,13 @@ META = {
                 "soundness harnesses (C03). Two recorded findings (meet of split_oct, meet of split_dbm with zones.close_bounds_inline) are excluded by "
                 "construction, see known_findings.json.",
     },
+    "C14": {
+        "technique": "concrete reference interpreter with a byte-offset cell model + gamma-membership of loaded values (differential); choice-tape PBT (rapidcheck) and libFuzzer",
+        "text": "Sampled search over generated array programs (initialisations, strong/weak/range stores, array copies, loads with constant and symbolic "
+                "indices, loops and branches for joins/widenings) on both array domains over three base domains and all adaptive-domain parameters: the "
+                "value a concrete execution loads must be inside the abstract value of the receiving variable, and no array operation may turn a "
+                "reached state into bottom.",
+        "note": "Histories of array operations outside programs (h_hist) are not generated yet; cell contents are only observed through loads, as the property states. "
+                "One recorded finding (array_adaptive with a small max_array_size) is reported as KNOWN-FINDING.",
+    },
 }
